@@ -69,8 +69,6 @@ class DataFrameSchemaBackend(PandasSchemaBackend):
         error_handler = ErrorHandler(lazy)
 
         check_obj = self.preprocess(check_obj, inplace=inplace)
-        if hasattr(check_obj, "pandera"):
-            check_obj = check_obj.pandera.add_schema(schema)
 
         # Collect status of columns against schema
         column_info = self.collect_column_info(check_obj, schema)
@@ -126,7 +124,6 @@ class DataFrameSchemaBackend(PandasSchemaBackend):
                 schema, "drop_invalid_rows", False
             ) and self.can_drop_invalid_rows(error_handler):
                 check_obj = self.drop_invalid_rows(check_obj, error_handler)
-                return check_obj
             else:
                 raise SchemaErrors(
                     schema=schema,
@@ -134,6 +131,10 @@ class DataFrameSchemaBackend(PandasSchemaBackend):
                     data=check_obj,
                 )
 
+        # only an object that passed validation carries the schema: code that
+        # trusts the accessor (e.g. check_types) must not skip invalid data
+        if hasattr(check_obj, "pandera"):
+            check_obj = check_obj.pandera.add_schema(schema)
         return check_obj
 
     def run_checks_and_handle_errors(
